@@ -204,10 +204,13 @@ theorem callCmd_out_encodes (env : Env) (pruning : Int) (sv : Services) (host : 
         cases hs' : allStr ys with
         | none => simp [hs'] at ho
         | some ss =>
-          simp only [hs', hashable_true, if_true] at ho
-          injection ho with ho
-          subst ho
-          exact dump_ack
+          simp only [hs'] at ho
+          by_cases hr : registerRefuses env (host, port) = true
+          · rw [if_pos hr] at ho; cases ho
+          · rw [if_neg hr, if_pos (hashable_true _)] at ho
+            injection ho with ho
+            subst ho
+            exact dump_ack
   | unregister =>
     match xs, ho with
     | [], ho => simp [callCmd] at ho
@@ -383,7 +386,11 @@ theorem callCmd_noop (env : Env) (pruning : Int) (sv : Services) (host : Val) (n
         simp only [hit] at hi ⊢
         cases hs : allStr ys with
         | none => exact noop_finish_error env sv _
-        | some ss => simp [hs] at hi
+        | some ss =>
+          simp only [hs] at hi ⊢
+          by_cases hr : registerRefuses env (host, port) = true
+          · rw [if_pos hr]; exact noop_finish_error env sv _
+          · rw [if_neg hr] at hi; cases hi
   | unregister =>
     match xs, hi with
     | [], _ => exact noop_finish_error env sv _
